@@ -87,7 +87,7 @@ end
 
 /-! ### the oracle on observations -/
 
-/-- every segment path to a node of a tree -/
+/- every segment path to a node of a tree -/
 mutual
   def allPaths : Kvs → List (List Bytes)
     | [] => []
@@ -103,17 +103,22 @@ def valuesOK (srcs : List Kvs) (obs : Kvs) : Bool :=
   let ps := (srcs.flatMap fun s => allPaths (normalize s)) ++ allPaths obs
   ps.all fun p => classify (getPath obs p) == lastWins srcs p
 
-/-- structural equality of trees as unordered maps is not needed: the harness renders maps with
-    sorted keys, so "untouched" is plain equality of the two renderings -/
-def cvalEq : CVal → CVal → Bool
-  | .leaf a, .leaf b => a == b
-  | .map a, .map b => kvsEq a b
-  | _, _ => false
-where
-  kvsEq : Kvs → Kvs → Bool
-    | [], [] => true
-    | (k, v) :: r, (k', v') :: r' => k == k' && cvalEq v v' && kvsEq r r'
+/- equality of trees as Go maps: the order of the entries does not matter (keys are distinct) -/
+mutual
+  def cvalEq : CVal → CVal → Bool
+    | .leaf a, .leaf b => a == b
+    | .map a, .map b => a.length == b.length && kvsSub a b
     | _, _ => false
+  /-- every entry of the first map has an equal entry in the second -/
+  def kvsSub : Kvs → Kvs → Bool
+    | [], _ => true
+    | (k, v) :: rest, b =>
+      (match lookup k b with
+       | some v' => cvalEq v v'
+       | none => false) && kvsSub rest b
+end
+
+def kvsEq (a b : Kvs) : Bool := a.length == b.length && kvsSub a b
 
 /-- is a fault injected into this Load, judged on the sources alone (last-wins on the fault keys)? -/
 def srcFails (inp : LoadInput) : Bool :=
@@ -145,7 +150,7 @@ structure LoadObs where
 def loadOK (schema : Bool) (nv : Nat) (prevValues : Kvs) (prevBound : List (Bytes × Bytes))
     (inp : LoadInput) (o : LoadObs) : Bool :=
   if mustFail schema nv inp then
-    o.failed && cvalEq.kvsEq o.values prevValues && o.bound == prevBound
+    o.failed && kvsEq o.values prevValues && o.bound == prevBound
   else
     !o.failed && valuesOK (okMaps inp) o.values &&
     (match inp.bind with
@@ -156,6 +161,6 @@ def loadOK (schema : Bool) (nv : Nat) (prevValues : Kvs) (prevBound : List (Byte
 /-- a reader saw one of the installed maps, whole: the one before or the one after the Load it ran
     against -/
 def readerOK (before after seen : Kvs) : Bool :=
-  cvalEq.kvsEq seen before || cvalEq.kvsEq seen after
+  kvsEq seen before || kvsEq seen after
 
 end Rivaas.Config
